@@ -108,6 +108,8 @@ func vLive(b []byte) bool               { return true }
 func vDeadlocked() bool                 { return false }
 func vNondetErr(name string) error      { return nil }
 func vHavocBytes(b []byte, name string) {}
+func vUnsafeClass(k int)        {}
+func vOutUnsafe() bool          { return false }
 func vLastEncoded() interface{} { return nil }
 func vAnd(a, b bool) bool       { return a && b }
 func vOr(a, b bool) bool        { return a || b }
